@@ -15,13 +15,20 @@ enum SpecEnd {
     Never,
 }
 
+/// "At an instruction boundary" for the specification twin: the current control word is a fetch
+/// word (MAC3), read from the public signals rather than through `is_instruction_done()`, which is
+/// part of what is being checked.
+fn at_boundary(m: &Machine) -> bool {
+    m.signals().mac3()
+}
+
 /// The step by its specification, on raw clock edges.
 fn spec_step(m: &mut Machine) -> SpecEnd {
     let mut n = 0u32;
     const BOUND: u32 = 4096;
     let mut seen: Vec<Machine> = vec![];
     // phase 1: leave the boundary we may be sitting on
-    while m.is_instruction_done() && m.state() == State::Running {
+    while at_boundary(m) && m.state() == State::Running {
         m.raw_mut().trigger_clock_edge();
         n += 1;
         if n > BOUND {
@@ -29,7 +36,7 @@ fn spec_step(m: &mut Machine) -> SpecEnd {
         }
     }
     // phase 2: complete the instruction
-    while !m.is_instruction_done() && m.state() == State::Running {
+    while !at_boundary(m) && m.state() == State::Running {
         if n % 8 == 0 {
             if seen.iter().any(|s| s == m) {
                 return SpecEnd::Never;
@@ -107,6 +114,12 @@ fn parse_line(line: &str) -> (Prog, u32, bool, u32) {
 /// Check one state: machine after `e` edges, optionally with a key interrupt just triggered.
 /// Returns (key, what) on a violation; `hang` tells that the real call must not be made in-process.
 fn check_state(m0: &Machine, k: u32) -> Result<(u32, Option<(u16, u8)>), (String, String)> {
+    if m0.is_instruction_done() != at_boundary(m0) {
+        return Err((
+            "boundary/is-instruction-done-disagrees-with-the-fetch-word".into(),
+            format!("is_instruction_done() = {} but the current control word {} a fetch word (micro address {:#05x})", m0.is_instruction_done(), if at_boundary(m0) { "is" } else { "is not" }, m0.verif_micro_addr()),
+        ));
+    }
     // specification twin, k steps
     let mut b = m0.clone();
     b.set_step_mode(StepMode::Real);
@@ -181,12 +194,15 @@ fn corpus(quick: bool) -> Vec<Prog> {
     let starts = [
         Cpu { r: [0x07, 0x03, 0xD0], pc: 0x10, fr: 0x08, sp: 0xE0 },
         Cpu { r: [0xFF, 0x00, 0x40], pc: 0x10, fr: 0x0F, sp: 0xEF },
+        // R1 / R2 = 0xF7 / 3: a DIV of 170 clock edges, MUL with a full multiplier
+        Cpu { r: [0xFF, 0xF7, 0x03], pc: 0x10, fr: 0x08, sp: 0xE8 },
     ];
     let alpha_n = if quick { alpha.len() } else { alpha.len() };
     for (si, s) in starts.iter().enumerate() {
         if quick && si == 1 {
             continue;
         }
+        let long_div = si == 2;
         for a in alpha.iter().take(alpha_n) {
             for b in alpha.iter().take(alpha_n) {
                 let mut code = a.1.clone();
@@ -203,7 +219,7 @@ fn corpus(quick: bool) -> Vec<Prog> {
                     stack: free.0,
                     prog: free.1,
                     int_enabled: true,
-                    run_edges: 70,
+                    run_edges: if long_div { 200 } else { 70 },
                 });
             }
         }
@@ -552,7 +568,7 @@ pub fn run() {
                 confirmed_hangs += 1;
                 ctx.violation("step-never-returns/undefined-opcode", format!("[{}] assembly step does not return (child killed after 1.5 s)", nm), l.clone());
             }
-            Some(true) => ctx.violation("machinery/prediction-mismatch", format!("[{}] twin predicted a hang but the real call returned", nm), l.clone()),
+            Some(true) => ctx.violation("step/returns-without-reaching-a-boundary", format!("[{}] clock-stepping never reaches a boundary from here (no halt either), yet the assembly step returned: it stopped inside an instruction", nm), l.clone()),
             None => ctx.machinery_error("could not run the confirmation child"),
         }
     }
@@ -579,7 +595,7 @@ pub fn run() {
     ctx.set("distinct_nontrivial", all.hist.len() as u64 + hang_undefined.len() as u64);
     ctx.set("rule", "state = real machine after e clock edges into a corpus program (e = 0..run length), x {interrupt just triggered, not} x {Real, Assembly mode}; at each state one (every 7th: three) assembly step(s) on a clone must equal the specification twin clocked edge by edge (whole-Machine equality modulo the mode flag); distinct_nontrivial = distinct step lengths (10-edge buckets) + predicted non-returning opcode cases");
     ctx.set("exhaustive", true);
-    ctx.set("bounds", format!("{} corpus programs (all ordered pairs of a 35-instruction alphabet from {} start state(s), thorough: all triples of a 16-instruction alphabet, + 4 supervised programs), every edge 0..70/110/120; termination: all 256 first bytes and 4 x 256 second bytes, first three steps; twin bound 4096 edges with exact state-cycle detection", progs.len(), if quick { 1 } else { 2 }));
+    ctx.set("bounds", format!("{} corpus programs (all ordered pairs of a 35-instruction alphabet from {} start states, thorough: all triples of a 16-instruction alphabet, + 4 supervised programs), every edge 0..70/110/120; termination: all 256 first bytes and 4 x 256 second bytes, first three steps; twin bound 4096 edges with exact state-cycle detection", progs.len(), if quick { 2 } else { 3 }));
     let mut h = Json::obj();
     for (k, v) in &all.hist {
         h.set(&format!("{}-{}", k, k + 9), *v);
